@@ -5,6 +5,7 @@
 
 time_t VNOW = 1000000;
 int *SIM_ALLOC_PAUSE;
+void (*SIM_GATE)(struct sim *s, int cancel_enabled);
 __thread struct sim *CUR_SIM;
 
 const char *const DEFECT_NAME[D_COUNT] = {
